@@ -75,6 +75,16 @@ def check(ctx, dims, sys_arg, dim_form, dtype, variable=False, basis=None):
         return not ctx.violation("partial_trace: output differs from the index contraction over the traced subsystems",
                                  {"function": "partial_trace", "args": desc, "input_re": re[:256], "input_im": im[:256], "impl_re": ire[:64], "model_re": mre["data"][:64],
                                   "impl_shape": shape, "model_shape": mre["shape"], "theorem": "ptrace_eq_spec"})
+    # linearity at small and large scale (ptrace_smul): the same operator times a power of two (exact in floating point) must give the result times
+    # that power, entry for entry - complex inputs of norm 1e-15 included (clean-up steps with absolute tolerances show here)
+    if not variable and dtype in ("float64", "complex128") and basis is None and ctx.evaluations % 4 == 0:
+        for kexp in (-50, -60, 30):
+            sc = 2.0 ** kexp
+            outs = call(partial_trace, np.asarray(X) * sc, sys_arg, dim_py)
+            ctx.count(f"ptrace/scaled/2^{kexp}")
+            if outs[0] != "ok" or np.asarray(outs[1]).dtype != np.asarray(impl[1]).dtype or not np.array_equal(np.asarray(outs[1]), np.asarray(impl[1]) * sc):
+                return not ctx.violation(f"partial_trace: the operator scaled by 2^{kexp} does not give the result scaled by 2^{kexp} (or changes its dtype)",
+                                         {"function": "partial_trace", "args": dict(desc, scale_exp=kexp), "input_re": re[:256], "input_im": im[:256], "theorem": "ptrace_smul"})
     return True
 
 
